@@ -1,10 +1,94 @@
 import SkaModel.Core.Proto
+import SkaModel.Core.Fit
 
-/-! Driver commands for the `Fit` model family. One self-contained case per line. -/
+/-! Driver commands for the `Fit` model family (C12). One self-contained case per line.
+Rows are identified by their position (the harness gives every training row a unique id feature). -/
 
 namespace Ska.Drv.Fit
-open Ska Ska.Proto
+open Ska Ska.Classifier Ska.Fit Ska.Proto
 
-def handlers : List (String × P String) := []
+/-- class index or `n` (missing) -/
+def optNat : P (Option Nat) := do
+  let t ← tok
+  if t = "n" then pure none
+  else match t.toNat? with
+    | some v => pure (some v)
+    | none => failure
+
+def showOptNat : Option Nat → String
+  | none => "n"
+  | some v => toString v
+
+def showW (w : Option (List Float)) : String :=
+  match w with
+  | none => "none"
+  | some l => "w " ++ showFloats l
+
+def rowsOf {β γ : Type} (ys : List β) (ws : List γ) : List (Nat × β × γ) :=
+  (List.range ys.length).zip (ys.zip ws)
+
+/-- `skfit <k> <acceptsW> <hasW> <n> y(n) w(n)` : `SklearnClassifier._fit`.
+Output `<counts> | none` or `<counts> | <ids> ; <ys> ; <weights|none>`. -/
+def cmdSkFit : P String := do
+  let k ← nat
+  let acceptsW ← bool; let hasW ← bool
+  let n ← nat
+  let ys ← many optNat n
+  let ws ← many float n
+  let r := sklearnFit k acceptsW hasW (rowsOf ys ws)
+  let c := showNats r.counts
+  match r.call with
+  | none => pure (c ++ " | none")
+  | some (xs, y, w) => pure (c ++ " | " ++ showNats xs ++ " ; " ++ showNats y ++ " ; " ++ showW w)
+
+/-- `regfit <hasW> <n> y(n, nan = missing) w(n)` : `SklearnRegressor._fit`. -/
+def cmdRegFit : P String := do
+  let hasW ← bool
+  let n ← nat
+  let ys ← many optFloat n
+  let ws ← many float n
+  let (xs, y, w) := regressorFit hasW (rowsOf ys ws)
+  pure (showNats xs ++ " ; " ++ showFloats y ++ " ; " ++ showW w)
+
+/-- `nicfit <hasW> <n> y(n) w(n)` : `NICKernelRegressor.fit`. -/
+def cmdNicFit : P String := do
+  let hasW ← bool
+  let n ← nat
+  let ys ← many optFloat n
+  let ws ← many float n
+  match nicFit hasW (rowsOf ys ws) with
+  | .error .zeroWeights => pure "err zero-weights"
+  | .ok (xs, y, w) => pure ("ok " ++ showNats xs ++ " ; " ++ showFloats y ++ " ; " ++ showW w)
+
+/-- `alrfit <hasW> <n> <a> y(n*a) w(n*a)` : rows reaching the EM algorithm of `AnnotatorLogisticRegression`. -/
+def cmdAlrFit : P String := do
+  let hasW ← bool
+  let n ← nat; let a ← nat
+  let ys ← many (many optNat a) n
+  let ws ← many (many float a) n
+  let (xs, y, w) := alrFit hasW (rowsOf ys ws)
+  let ystr := " , ".intercalate (y.map (fun r => " ".intercalate (r.map showOptNat)))
+  let wstr := match w with
+    | none => "none"
+    | some l => "w " ++ " , ".intercalate (l.map showFloats)
+  pure (showNats xs ++ " ; " ++ ystr ++ " ; " ++ wstr)
+
+/-- `pwcrows <k> <n> kern(n) y(n) w(n)` : `predict_freq` of one query point from the training rows;
+output: the `k` frequencies over all rows, then over the labeled rows only. -/
+def cmdPwcRows : P String := do
+  let k ← nat
+  let n ← nat
+  let kern ← many float n
+  let ys ← many optNat n
+  let ws ← many float n
+  let d := rowsOf ys ws
+  let kf : Nat → Float := fun i => kern.getD i 0
+  let full := (List.range k).map (fun c => predictFreq kf d c)
+  let lab := (List.range k).map (fun c => predictFreq kf (d.filter isLabeledRow) c)
+  pure (showFloats full ++ " | " ++ showFloats lab)
+
+def handlers : List (String × P String) :=
+  [ ("skfit", cmdSkFit), ("regfit", cmdRegFit), ("nicfit", cmdNicFit), ("alrfit", cmdAlrFit),
+    ("pwcrows", cmdPwcRows) ]
 
 end Ska.Drv.Fit
